@@ -1,1 +1,115 @@
-def hello := "world"
+/-!
+# Core conventions of the model
+
+* A Python `str` is a list of code points (`Str := List Nat`).  Equality, `<`, slicing,
+  concatenation, `startswith`, `partition`, `rsplit` are list operations, and `sorted` on `str`
+  is the lexicographic order on `List Nat` (Python compares code points).
+* A Python `dict` that is only used through `get` / `in` / `d[k] = v` is an association list:
+  `set` conses, `get` returns the first hit (so the last write wins).
+
+This file contains definitions only (no Mathlib, no lemmas) so that the driver can import it.
+-/
+
+abbrev Str := List Nat
+
+/-- Exceptions that escape the modelled code, abstracted to the class families the properties
+distinguish. -/
+inductive Err where
+  | noDelimiter      -- NoCURIEDelimiterError (ValueError)
+  | compression      -- CompressionError
+  | expansion        -- ExpansionError
+  | prefixStd        -- PrefixStandardizationError
+  | identifierStd    -- IdentifierStandardizationError
+  | curieStd         -- CURIEStandardizationError
+  | uriStd           -- URIStandardizationError
+  | valueError       -- a plain ValueError raised by the library (add_record, chain)
+  | validation       -- pydantic ValidationError (a ValueError)
+  | dupUri           -- DuplicateURIPrefixes
+  | dupPrefix        -- DuplicatePrefixes
+  | dupKeys | dupValues | inconsistent | cycle   -- reconciliation errors (ValueError)
+  | transitive       -- TransitiveError (NotImplementedError)
+  | keyError | indexError | typeError | other
+deriving DecidableEq, Repr, Inhabited
+
+namespace Err
+/-- "one of the library's ValueError-derived conversion / standardisation errors" (C08). -/
+def isLibraryValueError : Err → Bool
+  | noDelimiter | compression | expansion | prefixStd | identifierStd | curieStd | uriStd => true
+  | _ => false
+
+def name : Err → String
+  | noDelimiter => "noDelimiter" | compression => "compression" | expansion => "expansion"
+  | prefixStd => "prefixStd" | identifierStd => "identifierStd" | curieStd => "curieStd"
+  | uriStd => "uriStd" | valueError => "valueError" | validation => "validation"
+  | dupUri => "dupUri" | dupPrefix => "dupPrefix" | dupKeys => "dupKeys"
+  | dupValues => "dupValues" | inconsistent => "inconsistent" | cycle => "cycle"
+  | transitive => "transitive" | keyError => "keyError" | indexError => "indexError"
+  | typeError => "typeError" | other => "other"
+end Err
+
+abbrev Dict (β : Type) := List (Str × β)
+
+namespace Dict
+variable {β : Type}
+/-- `d[k] = v`: last write wins. -/
+def set (d : Dict β) (k : Str) (v : β) : Dict β := (k, v) :: d
+/-- `d.get(k)` -/
+def get (d : Dict β) (k : Str) : Option β := (d.find? (fun kv => kv.1 == k)).map (·.2)
+/-- `k in d` -/
+def has (d : Dict β) (k : Str) : Bool := (get d k).isSome
+/-- The distinct keys, for observing a dict as a set of pairs. -/
+def keys (d : Dict β) : List Str := (d.map (·.1)).eraseDups
+/-- The dict as a duplicate-free list of `(key, current value)` pairs. -/
+def items (d : Dict β) : List (Str × β) := (keys d).filterMap fun k => (get d k).map fun v => (k, v)
+/-- set one value for a list of keys, in order -/
+def setAll (d : Dict β) (ks : List Str) (v : β) : Dict β := ks.foldl (fun d k => set d k v) d
+end Dict
+
+/-- Python `a <= b` on strings. -/
+def strLe (a b : Str) : Bool := decide (a ≤ b)
+/-- Python `a < b` on strings. -/
+def strLt (a b : Str) : Bool := decide (a < b)
+
+/-- `sorted(xs)` for a list of strings (stable merge sort; Python's sort is stable too). -/
+def sortStrs (xs : List Str) : List Str := xs.mergeSort (fun a b => strLe a b)
+
+/-- Python `(a1, a2) <= (b1, b2)` on pairs of strings. -/
+def pairLe (a b : Str × Str) : Bool := strLt a.1 b.1 || (a.1 == b.1 && strLe a.2 b.2)
+
+/-- index of the first occurrence of `d` in `s` (Python `str.find`), `none` if absent. -/
+def firstOcc (d : Str) : Str → Option Nat
+  | [] => if d = [] then some 0 else none
+  | c :: s => if d.isPrefixOf (c :: s) then some 0 else (firstOcc d s).map (· + 1)
+
+/-- `sep in s` -/
+def contains (s d : Str) : Bool := (firstOcc d s).isSome
+
+/-- `s.partition(sep)` with the "separator not found" case made explicit.
+(`sep = ""` raises `ValueError` in Python; callers guard that.) -/
+def partition? (d s : Str) : Option (Str × Str) :=
+  (firstOcc d s).map fun n => (s.take n, s.drop (n + d.length))
+
+/-- index of the last occurrence of `d` in `s` (Python `str.rfind`). -/
+def lastOcc (d : Str) : Str → Option Nat
+  | [] => if d = [] then some 0 else none
+  | c :: s =>
+    match lastOcc d s with
+    | some n => some (n + 1)
+    | none => if d.isPrefixOf (c :: s) then some 0 else none
+
+/-- `s.rsplit(sep, maxsplit=1)` when `sep in s`. -/
+def rpartition? (d s : Str) : Option (Str × Str) :=
+  (lastOcc d s).map fun n => (s.take n, s.drop (n + d.length))
+
+/-- The delimiter `d` does not *start* inside `p` when `p` is followed by `d`.  For a one-symbol
+delimiter this is `d ∉ p`; for longer delimiters it is strictly stronger than "`p` does not
+contain `d`" (`p = "a:"`, `d = "::"`), and it is exactly the condition under which `partition`
+recovers `p` from `p ++ d ++ i` (see `Lemmas/Basic.lean`). -/
+def DelimOK (d p : Str) : Prop := ∀ i, i < p.length → ¬ d <+: (p ++ d).drop i
+
+/-- executable version of `DelimOK` -/
+def delimOK (d p : Str) : Bool := (List.range p.length).all fun i => !(d.isPrefixOf ((p ++ d).drop i))
+
+/-- sequencing helper: Python `x or default` on optional strings is not used; this is
+`Option.getD` spelled out to make totalisation explicit at call sites. -/
+def orElse {α} (o : Option α) (d : α) : α := match o with | some a => a | none => d
